@@ -165,6 +165,9 @@ def render_docstring(c: Ctx, ind, lines):
     if not lines:
         return [ind + q + q] if r.random() < 0.5 else [ind + q + " " + q]
     if len(lines) == 1 and r.random() < 0.6:
+        if r.random() < 0.04:
+            c.features.add("docstring-then-comment")
+            return [ind + q + lines[0] + q + "  # noqa"]
         return [ind + q + lines[0] + q]
     k = r.random()
     body = [(ind + l) if l else "" for l in lines]
